@@ -29,8 +29,9 @@ import (
 )
 
 const (
-	scenSysFee = 3_0000_0000 // system fee of every scenario transaction (fully charged whatever is consumed)
-	policyFPB  = 10          // Policy storage key of FeePerByte
+	scenSysFee = 3_0000_0000  // system fee of every scenario transaction (fully charged whatever is consumed)
+	policyFPB  = 10           // Policy storage key of FeePerByte
+	deployFee  = 12_0000_0000 // extra system fee per deploy statement (minimum deployment fee is 10 GAS)
 )
 
 // World is one real chain (single validator = committee) with a separate fee payer.
@@ -44,6 +45,7 @@ type World struct {
 	seq    int
 	policy int32
 	gasID  int32
+	mgmt   int32
 	ntfCh  chan *state.ContainedNotificationEvent
 	blkCh  chan *block.Block
 	feed   map[util.Uint256][]state.NotificationEvent // notifications delivered to subscribers, per container
@@ -74,6 +76,7 @@ func NewWorld(t testing.TB) *World {
 	w.Sync()
 	w.policy = e.NativeID(t, nativenames.Policy)
 	w.gasID = e.NativeID(t, nativenames.Gas)
+	w.mgmt = e.NativeID(t, nativenames.Management)
 	return w
 }
 
@@ -113,9 +116,8 @@ type Outcome struct {
 	Notes     []Note           `json:"notes"`
 	Store     []map[string]int `json:"store"` // per contract: key -> value (present keys only)
 	Bal       []int64          `json:"bal"`   // GAS of each scenario contract
-	FeePaid   int64            `json:"feepaid"`
 	Fee       int64            `json:"fee"`
-	Deployed  []bool           `json:"deployed"`
+	Dep       []int            `json:"dep"`       // children (deploy statements) that exist after the block
 	XferLog   int              `json:"xferlog"`   // NEP-17 transfer log entries of the scenario contracts caused by this transaction
 	Delivered []Note           `json:"delivered"` // notifications of this transaction delivered to subscribers
 }
@@ -129,6 +131,8 @@ func (w *World) who(s *Scenario, h util.Uint160) string {
 	switch {
 	case h.Equals(nativehashes.GasToken):
 		return "gas"
+	case h.Equals(nativehashes.ContractManagement):
+		return "mgmt"
 	case h.Equals(w.Sink):
 		return "sink"
 	case h.Equals(w.Payer.ScriptHash()):
@@ -167,6 +171,15 @@ func (w *World) notes(s *Scenario, evs []state.NotificationEvent) []Note {
 			if v, err := items[2].TryInteger(); err == nil {
 				n.N = v.Int64()
 			}
+		} else if n.C == "mgmt" && ev.Name == "Deploy" && len(items) == 1 {
+			n.N = -1
+			if h, ok := itemHash(items[0]); ok {
+				for d, ch := range s.comp.Children {
+					if ch.Equals(h) {
+						n.N = int64(d)
+					}
+				}
+			}
 		} else {
 			if ev.Name != evName {
 				n.C += ":" + ev.Name
@@ -193,7 +206,7 @@ func (w *World) Prepare(scs []*Scenario) error {
 		if s.Name == "" {
 			s.Name = fmt.Sprintf("s%d", w.seq)
 		}
-		c, err := Compile(s.Root, fmt.Sprintf("w%d-%s", w.seq, s.Name), w.Val.ScriptHash())
+		c, err := Compile(s.Root, fmt.Sprintf("w%d-%s", w.seq, s.Name), w.Val.ScriptHash(), w.Payer.ScriptHash())
 		if err != nil {
 			return err
 		}
@@ -234,13 +247,19 @@ func (w *World) Prepare(scs []*Scenario) error {
 			}
 			cs := w.BC.GetContractState(ct.Hash)
 			if cs == nil {
-				return fmt.Errorf("contract %s not deployed", ct.Manifest.Name)
+				// every setup transaction HALTed (checked above), yet the deployed contract is not there
+				return &HaltedEffectMissing{What: fmt.Sprintf("deployment transaction of %s halted but the contract does not exist", ct.Manifest.Name)}
 			}
 			s.ids[i] = cs.ID
 		}
 	}
 	return nil
 }
+
+// HaltedEffectMissing reports a transaction of the harness itself that HALTed without its effect being applied.
+type HaltedEffectMissing struct{ What string }
+
+func (e *HaltedEffectMissing) Error() string { return e.What }
 
 // deployTx is neotest's NewDeployTx with an explicit system fee (no test invocation: the harness must not depend on
 // test executions leaving no trace - that is what is being checked).
@@ -264,7 +283,7 @@ func (w *World) MakeTx(s *Scenario) *transaction.Transaction {
 	tx := transaction.New(s.script, 0)
 	tx.Nonce = neotest.Nonce()
 	tx.ValidUntilBlock = w.BC.BlockHeight() + 1
-	w.E.SignTx(w.t, tx, scenSysFee, w.Payer, w.Val)
+	w.E.SignTx(w.t, tx, scenSysFee+int64(countKind(s.Root, "deploy"))*deployFee, w.Payer, w.Val)
 	s.tx = tx
 	return tx
 }
@@ -297,12 +316,16 @@ type Snapshot struct {
 	Sink     int64 `json:"sink"`
 	Nset     int64 `json:"nset"`      // Policy.FeePerByte as the native cache answers
 	NsetDisk int64 `json:"nset_disk"` // ... as stored in the Policy contract storage
+	NextID   int64 `json:"nextid"`    // ContractManagement's next available contract id (storage)
 }
 
 func (w *World) Snapshot() Snapshot {
 	sn := Snapshot{Payer: w.gas(w.Payer.ScriptHash()), Sink: w.gas(w.Sink), Nset: w.BC.FeePerByte()}
 	si := w.BC.GetStorageItem(w.policy, []byte{policyFPB})
 	sn.NsetDisk = new(big.Int).SetBytes(reverse(si)).Int64()
+	if si := w.BC.GetStorageItem(w.mgmt, []byte{15}); si != nil {
+		sn.NextID = new(big.Int).SetBytes(reverse(si)).Int64()
+	}
 	return sn
 }
 
@@ -322,7 +345,6 @@ func (w *World) Observe(s *Scenario) Outcome {
 	for i := range s.comp.Contracts {
 		st := map[string]int{}
 		bal := int64(0)
-		dep := false
 		if s.comp.Contracts[i] != nil {
 			w.BC.SeekStorage(s.ids[i], nil, func(k, v []byte) bool {
 				val := -1
@@ -335,7 +357,6 @@ func (w *World) Observe(s *Scenario) Outcome {
 				return true
 			})
 			bal = w.gas(s.hashes[i])
-			dep = w.BC.GetContractState(s.hashes[i]) != nil
 		}
 		if s.comp.Contracts[i] != nil {
 			_ = w.BC.ForEachNEP17Transfer(s.hashes[i], ^uint64(0), func(tr *state.NEP17Transfer) (bool, error) {
@@ -347,7 +368,12 @@ func (w *World) Observe(s *Scenario) Outcome {
 		}
 		o.Store = append(o.Store, st)
 		o.Bal = append(o.Bal, bal)
-		o.Deployed = append(o.Deployed, dep)
+	}
+	o.Dep = []int{}
+	for d := 1; d <= 4; d++ {
+		if h, ok := s.comp.Children[d]; ok && w.BC.GetContractState(h) != nil {
+			o.Dep = append(o.Dep, d)
+		}
 	}
 	o.Delivered = w.notes(s, w.feed[s.tx.Hash()])
 	delete(w.feed, s.tx.Hash())
@@ -373,6 +399,17 @@ func (w *World) addBlock(txs []*transaction.Transaction) error {
 	}
 	w.Sync()
 	return nil
+}
+
+func countKind(b []Stmt, k string) int {
+	n := 0
+	for i := range b {
+		if b[i].K == k {
+			n++
+		}
+		n += countKind(b[i].Body, k) + countKind(b[i].Catch, k) + countKind(b[i].Fin, k)
+	}
+	return n
 }
 
 func sortedKeys(m map[string]int) []string {
